@@ -544,12 +544,14 @@ Lemma take_frags_m w w1 frags :
   WB w1 /\ (wword w1 = [] \/ word_is_empty (wword w1) = false) /\
   pstream docp w = pstream docp w1 ++ mpend frags.
 Proof.
-  unfold take_trailing_fragments. destruct (word_is_empty (wword w)) eqn:E; intros H (Ho & Hl & Hs);
-    injection H as <- <-.
-  - split; [split; [exact Ho|split; [exact Hl|constructor]]|]. split; [left; reflexivity|].
-    unfold pstream. cbn [set_word wword flat_map]. rewrite app_nil_r. reflexivity.
-  - split; [split; [exact Ho|split; assumption]|]. split; [right; exact E|].
-    cbn [mpend flat_map]. rewrite app_nil_r. reflexivity.
+  rewrite ttf_eq. intros H (Ho & Hl & Hs). injection H as <- <-.
+  pose proof Hs as Hs'. rewrite (tfr_app (wword w)) in Hs'. apply Forall_app in Hs'.
+  split; [split; [exact Ho|split; [exact Hl|exact (proj1 Hs')]]|]. split.
+  - cbn [set_word wword]. destruct (word_is_empty (wword w)) eqn:E.
+    + left. apply tfr_fst_nil_iff, E.
+    + right. rewrite tfr_fst_empty. exact E.
+  - unfold pstream, plines, mpend. cbn [set_word wword wtext wline].
+    rewrite (tfr_app (wword w)) at 1. rewrite flat_map_app, !app_assoc. reflexivity.
 Qed.
 
 Lemma flush_wrapping_m s s' : flush_wrapping s = Ok s' -> J s ->
@@ -1578,10 +1580,10 @@ Example fx1_output :
   Ok [[inl [104]; inr [35; 35; 32; 72; 105; 32]; inr [121; 111; 117]];      (* <h>## Hi you *)
       []; [inr [97; 98]];                                                    (* ab *)
       [inl [107]; inr [91; 99; 100; 93]; inr [91; 49; 93]];                  (* <k>[cd][1] *)
-      [inr [101; 102; 103; 104; 32; 105; 106]; inl [108]];                   (* efgh ij<l> *)
-      [inr [42; 32]; inl [105]; inr [111; 110; 101; 32; 116; 119; 111]];     (* * <i>one two *)
+      [inr [101; 102; 103; 104; 32; 105; 106]];                              (* efgh ij *)
+      [inl [108]; inr [42; 32]; inl [105]; inr [111; 110; 101; 32; 116; 119; 111]]; (* <l>* <i>one two *)
       [inr [32; 32; 116; 104; 114; 101; 101]];                               (*   three *)
-      [inr [42; 32; 65]; inl [101; 49]];                                     (* * A<e1> *)
+      [inr [42; 32; 65]];                                                    (* * A      (e1 dropped) *)
       [inr [42; 32; 66]]; [];                                                (* * B      (e2 dropped) *)
       [inr [62; 32]; inl [113]; inl [112]; inr [113; 32; 114]];              (* > <q><p>q r *)
       [inl [122]];                                                           (* <z> on the separator line *)
@@ -1603,12 +1605,14 @@ Proof.
                ls Hls).
 Qed.
 
-(* ... and this is what it says here: the tree has 9 markers; e2 (behind "B ", nothing visible
-   follows in its list item) and z (nothing visible follows in the document) are not in the
-   lower bound; the output has all of the lower bound, and z (attached to the line that
-   separates the footnote list) but not e2: both bounds are strict here.  e1 - also an element
-   without content - survives because no white space separates it from "A": which of the
-   markers outside the lower bound survive depends on the line structure. *)
+(* ... and this is what it says here: the tree has 9 markers; e1 (behind "A"), e2 (behind "B ",
+   nothing visible follows in their list items) and z (nothing visible follows in the document)
+   are not in the lower bound; the output has all of the lower bound, and z (attached to the
+   line that separates the footnote list) but neither e1 nor e2: both bounds are strict here.
+   (Since take_trailing_fragments takes the markers that trail the last text of the word, e1 -
+   which sits in the word of "A" - goes to pending_frags of the item's sub-renderer like e2 and
+   is dropped with it.)  A marker outside the lower bound still survives when white space
+   behind it has flushed its word onto the line: fx1_end_dropped. *)
 Example fx1_streams :
   fx_sh (mstream_tree plain_deco fx1) =
     [inl [104]; inr 72; inr 105; inr 121; inr 111; inr 117; inr 97; inr 98; inl [107]; inr 99;
@@ -1624,20 +1628,25 @@ Example fx1_streams :
     [inl [104]; inr 72; inr 105; inr 121; inr 111; inr 117; inr 97; inr 98; inl [107]; inr 99;
      inr 100; inr 101; inr 102; inr 103; inr 104; inr 105; inr 106; inl [108]; inl [105]; inr 111;
      inr 110; inr 101; inr 116; inr 119; inr 111; inr 116; inr 104; inr 114; inr 101; inr 101;
-     inr 65; inl [101; 49]; inr 66; inl [113]; inl [112]; inr 113; inr 114; inl [122]].
+     inr 65; inr 66; inl [113]; inl [112]; inr 113; inr 114; inl [122]].
 Proof. repeat split; vm_compute; reflexivity. Qed.
 
 (* <p id=p>a </p><span id=z></span>: without a footnote list a marker still waiting at the very
-   end (the white space behind "a" has closed the word) is dropped; without that white space
-   it sits in the last word and stays *)
+   end is dropped, whether the white space behind "a" has closed the word or (<p id=p>a</p>) the
+   marker trails "a" in the last word (take_trailing_fragments takes it from there);
+   <p id=p>a<span id=z></span> </p>: a marker that white space has flushed onto the line with
+   its word stays, although nothing visible follows it *)
 Example fx1_end_dropped :
   fx_out (render_tree plain_deco 3 (render_options (set_footnotes cfg_plain false)) 30
             (cx_n (IContainer [cx_n (IBlock [fx_fr [112]; cx_t 16 [97;32]]); fx_fr [122]]))) =
   Ok [inl [112]; inr 97] /\
   fx_out (render_tree plain_deco 3 (render_options (set_footnotes cfg_plain false)) 30
             (cx_n (IContainer [cx_n (IBlock [fx_fr [112]; cx_t 16 [97]]); fx_fr [122]]))) =
+  Ok [inl [112]; inr 97] /\
+  fx_out (render_tree plain_deco 3 (render_options (set_footnotes cfg_plain false)) 30
+            (cx_n (IContainer [cx_n (IBlock [fx_fr [112]; cx_t 16 [97]; fx_fr [122]; cx_t 18 [32]])]))) =
   Ok [inl [112]; inr 97; inl [122]].
-Proof. split; vm_compute; reflexivity. Qed.
+Proof. repeat split; vm_compute; reflexivity. Qed.
 
 (* ---- (B) the public route: the same document as a DOM through lines_from_read ---- *)
 Definition fx_el (name id : list N) (kids : list node) : node :=
@@ -1661,10 +1670,10 @@ Example fx_dom_lines :
   (do ls <- lines_from_read cx_ist cx_dr cfg_plain fx_dom 9; Ok (map show_line ls)) =
   Ok [[inl [104]; inr [35; 35; 32; 72; 105]]; []; [inr [97; 98]];
       [inl [107]; inr [91; 99; 100; 93]; inr [91; 49; 93]];
-      [inr [101; 102; 103; 104; 32; 105; 106]; inl [108]];
-      [inr [42; 32]; inl [105]; inr [111; 110; 101; 32; 116; 119; 111]];
+      [inr [101; 102; 103; 104; 32; 105; 106]];
+      [inl [108]; inr [42; 32]; inl [105]; inr [111; 110; 101; 32; 116; 119; 111]];
       [inr [32; 32; 116; 104; 114; 101; 101]];
-      [inr [42; 32; 65]; inl [101; 49]]; [inr [42; 32; 66]]; [];
+      [inr [42; 32; 65]]; [inr [42; 32; 66]]; [];
       [inr [62; 32]; inl [113]; inl [112]; inr [113; 32; 114]];
       [inl [122]]; [inr [91; 49; 93; 58; 32; 117]]].
 Proof. vm_compute. reflexivity. Qed.
@@ -1688,33 +1697,36 @@ Proof.
   split; [exact A|]. split; [exact C|]. apply D. exact (NoDup_map_inv _ _ Hd).
 Qed.
 
-(* ---- FINDING (new; confirmed on the implementation with the harness probe
-     h2t-harness one 1 1 0 '<div>世<span id="x"><p>abc</p></span></div>' overflow ):
-   marker_lost_after_overflowing_char.  With allow_width_overflow, a marker recorded right
-   behind a character that is wider than the wrapping block (U+4E16 at width 1), whose element
-   then starts a new block, is LOST although its element has visible content "abc".
-   The word is [Str "世"; Frag x]; flush_wrapping's take_trailing_fragments takes nothing (the
-   word has a Str); wb_into_lines -> flush_word -> hard wrap: hw_scan's overflow branch takes
-   the whole piece, force_flush_line, rest = [] so nothing is pushed on the new current line,
-   then hw_elems pushes Frag x on that EMPTY line; wb_flush's flush_line leaves a line that
-   `is_empty` (no Str) where it is and wb_into_lines returns the finished lines only.
-   This is why the theorems need o_allow_overflow = false (invariant WB: the current line is
-   never marker-only; hw_scan_rest: without overflow hw_scan never takes the whole piece). ---- *)
+(* ---- REPAIRED FINDING marker_lost_after_overflowing_char (probe
+     h2t-harness one 1 1 0 '<div>世<span id="x"><p>abc</p></span></div>' overflow ).
+   With allow_width_overflow, a marker recorded right behind a character that is wider than
+   the wrapping block (U+4E16 at width 1), whose element then starts a new block, used to be
+   LOST although its element has visible content "abc": the word is [Str "世"; Frag x];
+   take_trailing_fragments took nothing (the word has a Str); wb_into_lines -> flush_word ->
+   hard wrap: hw_scan's overflow branch takes the whole piece, force_flush_line, rest = [] so
+   nothing is pushed on the new current line, then hw_elems pushed Frag x on that EMPTY line;
+   wb_flush's flush_line leaves a line that `is_empty` (no Str) where it is and wb_into_lines
+   returns the finished lines only.
+   Now take_trailing_fragments takes the markers that trail the last text of the word
+   (Wrap.trailing_frags): Frag x goes to pending_frags and add_line puts it in front of the
+   next text line (here the empty line start_block puts between the blocks). ---- *)
 Definition fx_wide (k : N) : chr := mkchr 19990 (Some 2) false k.
 Definition fx_oo : ropts := render_options (set_overflow cfg_plain).
 Definition fx2 (c : chr) : rnode :=
   cx_n (IContainer [cx_n (IText [c]); fx_fr [120]; cx_n (IBlock [cx_t 20 [97;98;99]])]).
 
-Example marker_lost_after_overflowing_char :
+Example marker_kept_after_overflowing_char :
   (* the marker x has visible content behind it ... *)
   fx_sh (strip (mstream_min plain_deco (fx2 (fx_wide 16)))) = [inr 19990; inl [120]; inr 97; inr 98; inr 99] /\
-  (* ... but is not in the output *)
+  (* ... and is in the output, between the wide character and "abc" *)
   fx_lines (render_tree plain_deco 3 fx_oo 1 (fx2 (fx_wide 16))) =
-    Ok [[inr [19990]]; []; [inr [97]]; [inr [98]]; [inr [99]]] /\
-  (* with a character that fits it is (at the end of the line of that character) *)
+    Ok [[inr [19990]]; [inl [120]]; [inr [97]]; [inr [98]]; [inr [99]]] /\
+  fx_out (render_tree plain_deco 3 fx_oo 1 (fx2 (fx_wide 16))) =
+    Ok [inr 19990; inl [120]; inr 97; inr 98; inr 99] /\
+  (* with a character that fits it is at the same place *)
   fx_lines (render_tree plain_deco 3 fx_oo 1 (fx2 (mkchr 65 (Some 1) false 16))) =
-    Ok [[inr [65]; inl [120]]; []; [inr [97]]; [inr [98]]; [inr [99]]] /\
-  (* and when the element does not start a new block the marker survives too *)
+    Ok [[inr [65]]; [inl [120]]; [inr [97]]; [inr [98]]; [inr [99]]] /\
+  (* and when the element does not start a new block the marker is there too *)
   fx_lines (render_tree plain_deco 3 fx_oo 1
               (cx_n (IContainer [cx_n (IText [fx_wide 16]); fx_fr [120]; cx_t 20 [97;98;99]]))) =
     Ok [[inr [19990]]; [inl [120]; inr [97]]; [inr [98]]; [inr [99]]].
@@ -1724,18 +1736,54 @@ Proof. repeat split; vm_compute; reflexivity. Qed.
 Definition fx_dom2 : list node :=
   [ fx_el [100;105;118] [] [NText [fx_wide 16];
       fx_el fx_span [120] [fx_el [112] [] [NText (Al 20 [97;98;99])]]] ].
-Example marker_lost_after_overflowing_char_from_html :
+Example marker_kept_after_overflowing_char_from_html :
   (do ls <- lines_from_read cx_ist cx_dr (set_overflow cfg_plain) fx_dom2 1; Ok (map show_line ls)) =
-    Ok [[inr [19990]]; []; [inr [97]]; [inr [98]]; [inr [99]]] /\
+    Ok [[inr [19990]]; [inl [120]]; [inr [97]]; [inr [98]]; [inr [99]]] /\
   (do t <- to_render_tree cx_ist cx_dr (set_overflow cfg_plain) fx_dom2;
    Ok (no_table t, fx_sh (strip (mstream_min plain_deco t)))) =
     Ok (true, [inr 19990; inl [120]; inr 97; inr 98; inr 99]).
 Proof. split; vm_compute; reflexivity. Qed.
 
+(* ---- REMAINING FINDING (confirmed on the implementation with the harness probe
+     h2t-harness one 1 1 0 '<div>世<span id="x"> <p>abc</p></span></div>' overflow :
+     lines [世] [] [a] [b] [c] without Frag x; with 'A' instead of '世': [A <x>] [] [a] [b] [c]):
+   marker_lost_after_overflowing_char_and_space.  The repair covers the markers still in the
+   pending word when the block is flushed.  When white space follows the marker
+   ( <div>世<span id="x"> <p>abc</p></span></div> , width 1, overflow allowed) the space makes
+   add_char call flush_word on the word [Str "世"; Frag x] BEFORE the block ends: the hard-wrap
+   path again leaves Frag x alone on the current line, the word is empty, so
+   take_trailing_fragments has nothing to take, wb_flush's flush_line does not flush a line
+   that `is_empty`, and wb_into_lines throws the marker away although "abc" follows.
+   This is why the theorems still need o_allow_overflow = false (invariant WB: the current
+   line is never marker-only; hw_scan_rest: without overflow hw_scan never takes the whole
+   piece). ---- *)
+Definition fx3 (c : chr) : rnode :=
+  cx_n (IContainer [cx_n (IText [c]); fx_fr [120]; cx_t 18 [32]; cx_n (IBlock [cx_t 20 [97;98;99]])]).
+Definition fx_dom3 : list node :=
+  [ fx_el [100;105;118] [] [NText [fx_wide 16];
+      fx_el fx_span [120] [NText (Al 18 [32]); fx_el [112] [] [NText (Al 20 [97;98;99])]]] ].
+Example marker_lost_after_overflowing_char_and_space :
+  (* the marker x has visible content behind it ... *)
+  fx_sh (strip (mstream_min plain_deco (fx3 (fx_wide 16)))) = [inr 19990; inl [120]; inr 97; inr 98; inr 99] /\
+  (* ... but is not in the output *)
+  fx_lines (render_tree plain_deco 3 fx_oo 1 (fx3 (fx_wide 16))) =
+    Ok [[inr [19990]]; []; [inr [97]]; [inr [98]]; [inr [99]]] /\
+  (* with a character that fits it is (at the end of the line of that character) *)
+  fx_lines (render_tree plain_deco 3 fx_oo 1 (fx3 (mkchr 65 (Some 1) false 16))) =
+    Ok [[inr [65]; inl [120]]; []; [inr [97]]; [inr [98]]; [inr [99]]] /\
+  (* the same from HTML *)
+  (do ls <- lines_from_read cx_ist cx_dr (set_overflow cfg_plain) fx_dom3 1; Ok (map show_line ls)) =
+    Ok [[inr [19990]]; []; [inr [97]]; [inr [98]]; [inr [99]]] /\
+  (do t <- to_render_tree cx_ist cx_dr (set_overflow cfg_plain) fx_dom3;
+   Ok (no_table t, fx_sh (strip (mstream_min plain_deco t)))) =
+    Ok (true, [inr 19990; inl [120]; inr 97; inr 98; inr 99]).
+Proof. repeat split; vm_compute; reflexivity. Qed.
+
 Print Assumptions node_cm_all.
 Print Assumptions fx1_theorem.
 Print Assumptions fx_dom_theorem.
-Print Assumptions marker_lost_after_overflowing_char.
+Print Assumptions marker_kept_after_overflowing_char.
+Print Assumptions marker_lost_after_overflowing_char_and_space.
 
 (* ================================================================== *)
 (* SUMMARY                                                              *)
@@ -1771,16 +1819,18 @@ Print Assumptions marker_lost_after_overflowing_char.
    WHAT THE MODEL DOES WITH MARKERS (all proved as lemmas of sections 3-4)
      - record_frag_start appends the marker to the stream (record_frag_start_opM), text is
        appended behind it (add_inline_text_opM): nothing ever moves across a character.
-     - flush_wrapping keeps the stream (flush_wrapping_m): markers at the end of the word move to
-       pending_frags, all others are on the lines (into_lines_m - needs WB, see the finding).
+     - flush_wrapping keeps the stream (flush_wrapping_m): the markers that trail the last text
+       of the word (the whole word when it has no text) move to pending_frags (take_frags_m),
+       all others are on the lines (into_lines_m - needs WB, see the remaining finding).
      - add_line puts the waiting markers in front of the next text line (add_line_m).
      - append_subrender / sub_into_lines DROP the markers still waiting in the nested
        sub-renderer (append_subrender_m, sub_into_lines_m): recorded after its last text line.
        Which of the markers without visible text behind them are still waiting depends on the
-       line structure: in <li>A<span id=e1></span></li> e1 sits in the word of "A" and is kept, in
-       <li>B <span id=e2></span></li> the space has closed the word and e2 is dropped
-       (fx1_output).  Hence no exact equation with a stream computed from the tree alone can
-       hold; the theorems bound the output from both sides.
+       line structure: in <li>A<span id=e1></span></li> and <li>B <span id=e2></span></li> the
+       marker is in the pending word behind its last text and is dropped (fx1_output), in
+       <p>a<span id=z></span> </p> the space has flushed the word with its marker onto the line
+       and z is kept (fx1_end_dropped).  Hence no exact equation with a stream computed from the
+       tree alone can hold; the theorems bound the output from both sides.
      - at the very end of render_tree: waiting markers are dropped by sub_into_lines, or - with a
        footnote list - attached to the empty line start_block puts in front of it
        (fx1_output: z; fx1_end_dropped).  fmt_links adds no marker and no docp character
@@ -1821,15 +1871,19 @@ Print Assumptions marker_lost_after_overflowing_char.
      prefix_made d: as in RenderConserve (prefixes are repeated on every line).
      no_table: not done for tables (see below).
      J s (render_node theorem only; discharged for render_tree by o_allow_overflow o = false).
-     o_allow_overflow = false:  FINDING marker_lost_after_overflowing_char (new; confirmed on the
-       implementation: h2t-harness one 1 1 0 '<div>世<span id="x"><p>abc</p></span></div>' overflow
-       gives lines [世] [] [a] [b] [c] without Frag x; with 'A' instead of '世' the Frag is
-       there).  With overflow allowed, a marker recorded right behind a character wider than the
-       wrapping block, whose element starts a new block (<p>, <div>, <br>, list, ...), is lost
-       although the element has visible content: flush_word's hard-wrap path leaves it alone on
-       the current line, which wb_flush/flush_line does not flush (`is_empty`: no Str) and
-       wb_into_lines throws away.  Without overflow hw_scan never takes a whole piece
-       (hw_scan_rest) and the current line is never marker-only (flush_word_WB).
+     o_allow_overflow = false:  the former FINDING marker_lost_after_overflowing_char
+       ('<div>世<span id="x"><p>abc</p></span></div>' width 1 overflow gave lines [世] [] [a] [b] [c]
+       without Frag x) is repaired by take_trailing_fragments taking the markers that trail the
+       last text of the word (marker_kept_after_overflowing_char: [世] [<x>] [a] [b] [c]).
+       REMAINING FINDING marker_lost_after_overflowing_char_and_space (confirmed on the
+       implementation with the same probe and a space behind <span id="x">): with overflow
+       allowed, a marker recorded right behind a character wider than the wrapping block and
+       FOLLOWED BY WHITE SPACE before its element starts a new block
+       ('<div>世<span id="x"> <p>abc</p></span></div>') is still lost although the element has
+       visible content: the space flushes the word, flush_word's hard-wrap path leaves the
+       marker alone on the current line, which wb_flush/flush_line does not flush (`is_empty`:
+       no Str) and wb_into_lines throws away.  Without overflow hw_scan never takes a whole
+       piece (hw_scan_rest) and the current line is never marker-only (flush_word_WB).
 
    NOT PROVED
      - tables (neither raw mode nor side by side): mtree gives [] for ITable and every theorem
@@ -1839,6 +1893,8 @@ Print Assumptions marker_lost_after_overflowing_char.
      - the DOM -> render-tree step (see strip_keep above).
      - the line-level placement ("on the same line as the element's first character"): the
        stream fixes the position among the characters, not the line: a marker recorded when the
-       previous paragraph's last word is still open lands at the END of that paragraph's last
-       line (fx1_output: <l> behind "efgh ij", the <ul id=l> starts on the next line); the
-       property allows this when the element starts with a line break. *)
+       previous paragraph's last word is still open used to land at the END of that paragraph's
+       last line; since take_trailing_fragments takes the markers trailing the last text of the
+       word it lands at the START of the element's first line (fx1_output: <l> in front of
+       "* one two").  A marker that white space has flushed onto the line with the preceding
+       word still stays at the end of that line (fx1_end_dropped, third case). *)
